@@ -802,6 +802,61 @@ example : ∃ c, certForAt .new 1 11 (.hon 0) 1000 1000 = some c ∧ verifyPeer 
   obtain ⟨c, hc, _, h, _⟩ := c08_honest_window ⟨true⟩ 1 11 (.hon 0) 1000 1000 (by simp)
   exact ⟨c, hc, h.mpr (by omega)⟩
 
+/-! ### fault sequences: the dialler's retry loop -/
+
+/-- **whatever failed before, the attempt that becomes the connection passed the whole verifier**: for
+every number of allowed attempts and every sequence of answers at the dialled address (refusals,
+resets, aborted handshakes, any certificate chains), if `NewTLSConn` returns a connection then it is
+attempt `i < maxRetry`, every earlier attempt failed, and the chain presented at attempt `i` passed the
+verifier of *this* call — this nonce, this expected key: it names and proves the dialled key. -/
+theorem c08_retry_sound (maxRetry : Nat) (s : Suite) (them : Key) (n : Nonce)
+    (attempts : List (Option (List Cert))) (i : Nat)
+    (h : newTLSConn maxRetry s them n attempts = some i) :
+    i < maxRetry ∧ ∃ raw, attempts[i]? = some (some raw) ∧ verifyPeer s (some them) n raw = none ∧
+      peerKey s raw = some them ∧ ∃ c, raw = [c] ∧ c.ext = some (.sig them n c.cn) := by
+  unfold newTLSConn at h
+  rw [List.findIdx?_eq_some_iff_getElem] at h
+  obtain ⟨hlt, hp, _⟩ := h
+  have hlt' : i < maxRetry ∧ i < attempts.length := by
+    simp [List.length_take] at hlt; omega
+  rw [List.getElem_take] at hp
+  refine ⟨hlt'.1, ?_⟩
+  cases ha : attempts[i] with
+  | none => rw [ha] at hp; simp at hp
+  | some raw =>
+    rw [ha] at hp
+    have hv : verifyPeer s (some them) n raw = none := by simpa using hp
+    refine ⟨raw, ?_, hv, (c08_dialer_reaches_intended s them n raw hv).1, (c08_dialer_reaches_intended s them n raw hv).2⟩
+    rw [List.getElem?_eq_getElem hlt'.2, ha]
+
+/-- … and when none of the first `maxRetry` answers passes, there is no connection (later answers are
+never looked at) -/
+theorem c08_retry_exhausted (maxRetry : Nat) (s : Suite) (them : Key) (n : Nonce)
+    (attempts : List (Option (List Cert)))
+    (h : ∀ i raw, i < maxRetry → attempts[i]? = some (some raw) → verifyPeer s (some them) n raw ≠ none) :
+    newTLSConn maxRetry s them n attempts = none := by
+  unfold newTLSConn
+  rw [List.findIdx?_eq_none_iff]
+  intro a ha
+  obtain ⟨i, hi, rfl⟩ := List.getElem_of_mem ha
+  have hlt : i < maxRetry ∧ i < attempts.length := by
+    simp [List.length_take] at hi; omega
+  rw [List.getElem_take]
+  cases hai : attempts[i] with
+  | none => rfl
+  | some raw =>
+    have := h i raw hlt.1 (by rw [List.getElem?_eq_getElem hlt.2, hai])
+    simp only
+    cases hv : verifyPeer s (some them) n raw with
+    | none => exact absurd hv this
+    | some c => rfl
+
+/-- an impostor that is refused at the first attempt is refused at the second; the real server
+answering the third attempt is reached -/
+example : newTLSConn 5 ⟨true⟩ 1 (.hon 1)
+    [some [honestCert 2 12 (.hon 1)], some [{ honestCert 1 12 (.hon 1) with ext := some (.sig 2 (.hon 1) (.new 1)) }],
+     some [honestCert 1 11 (.hon 1)]] = some 2 := by decide
+
 /-! ### the code regions the model stands for
 Regenerated from /repo's source on every run (`harness/cmd/astfacts` → `OnetVerif/Shapes.lean`): the
 calls that matter for synchronisation and data flow, the lock regions and (for decision logic) the
